@@ -50,6 +50,36 @@ def handle (op : String) (args : List String) (impl : String) : Option Verdict :
         | none => false
       | _ => false
     return ⟨m, ok, s!"cell:{kind}:{repr o}"⟩
+  | "full", [kind] => some <| Id.run do
+    -- ran and succeeded on every participating relayer; key generation / resharing additionally store the new
+    -- share (one more access, which must be under the lock)
+    let some k := parseKind kind | return bad
+    let some d := (sessionFrom true (table k) .ran 0).head? | return bad
+    let d := if k.exclusive then { d with accL := d.accL + 1 } else d
+    let n := if k.exclusive then 3 else 2
+    -- the harness does not probe the lock while a full run is in flight
+    let one := "ok;" ++ showDelta { d with runHeld := none }
+    let m := "|".intercalate (List.replicate n one)
+    let parts := impl.splitOn "|"
+    let ok := parts.length = n && parts.all fun p =>
+      match p.splitOn ";" with
+      | ["ok", ds] => match parseDelta ds with
+        | some id => decide (Balanced id) && id.locks ≥ 1
+        | none => false
+      | _ => false
+    return ⟨m, ok, s!"full:{kind}"⟩
+  | "stuck", [kind] => some <| Id.run do
+    -- the session is failed while Run is between Subscribe and Party.Start; the property demands what it demands
+    -- of any failed run: Execute returns and the lock is balanced
+    let some k := parseKind kind | return bad
+    let some d := (sessionFrom true (table k) .ran 0).head? | return bad
+    let m := "err;" ++ showDelta { d with runHeld := none }
+    let ok := match impl.splitOn ";" with
+      | [r, ds] => (r == "err" || r == "ok") && (match parseDelta ds with
+        | some id => decide (Balanced id)
+        | none => false)
+      | _ => false
+    return ⟨m, ok, s!"stuck:{kind}"⟩
   | _, _ => none
 
 end Sygma.Drv.C10
